@@ -31,6 +31,11 @@ type A struct {
 	badLoop        int
 	badSwitch      int
 	badHelper      *H
+	badSplit       int
+	badStale       map[string]int
+	badSplitCall   int
+	okRecheck      map[string]int
+	okBlind        int
 	next           http.Handler
 	log            Logger
 }
@@ -196,3 +201,70 @@ type opt2 func(*A) error
 func (a *A) ApplyBad(o opt2) { _ = o(a) }
 
 func Bad() opt2 { return func(a *A) error { a.badClosure++; return nil } }
+
+// lock, load, unlock, lock, store: every access holds the lock, yet updates are lost
+func (a *A) Split() {
+	a.mu.Lock()
+	x := a.badSplit
+	a.mu.Unlock()
+	y := x + 1
+	a.mu.Lock()
+	a.badSplit = y
+	a.mu.Unlock()
+}
+
+func (a *A) loadSplit() int {
+	a.mu.Lock()
+	defer a.mu.Unlock()
+	return a.badSplitCall
+}
+
+// the same through a helper that has its own critical section
+func (a *A) SplitCall() {
+	v := a.loadSplit()
+	a.mu.Lock()
+	defer a.mu.Unlock()
+	a.badSplitCall = v + 1
+}
+
+// check, unlock, act
+func (a *A) Stale(k string) {
+	a.mu.Lock()
+	_, ok := a.badStale[k]
+	a.mu.Unlock()
+	if ok {
+		return
+	}
+	a.mu.Lock()
+	defer a.mu.Unlock()
+	a.badStale[k] = 1
+}
+
+// check, unlock, lock, check again, act: fine
+func (a *A) Recheck(k string) {
+	a.mu.Lock()
+	_, ok := a.okRecheck[k]
+	a.mu.Unlock()
+	if ok {
+		return
+	}
+	a.mu.Lock()
+	defer a.mu.Unlock()
+	if _, ok := a.okRecheck[k]; ok {
+		return
+	}
+	a.okRecheck[k] = 1
+}
+
+// a store that does not depend on anything read before
+func (a *A) Blind() {
+	a.mu.Lock()
+	defer a.mu.Unlock()
+	a.okBlind = 0
+}
+
+func (a *A) BlindRead() int {
+	a.mu.Lock()
+	defer a.mu.Unlock()
+	return a.okBlind
+}
